@@ -684,6 +684,8 @@ def r6(tree, rep):
 
 
 def run(tree, rep, tier):
+    from .. import sharedstate
+    sharedstate.check(tree, rep, "C12.R0")
     r1(tree, rep)
     r2(tree, rep)
     r3(tree, rep)
